@@ -307,6 +307,85 @@ void verif_out_end()
 }
 
 
+static bool verif_in_blank = false;
+
+
+void verif_blank_begin()
+{
+   FILE *fp = verif_file();
+
+   if (fp == nullptr)
+   {
+      return;
+   }
+   verif_index.clear();
+   size_t idx = 0;
+
+   for (Chunk *pc = Chunk::GetHead(); pc->IsNotNullChunk(); pc = pc->GetNext())
+   {
+      verif_index[pc] = idx++;
+   }
+
+   verif_in_blank = true;
+   fprintf(fp, "BLBEGIN n=%zu\n", idx);
+}
+
+
+void verif_blank_visit(const Chunk *pc)
+{
+   FILE *fp = verif_file();
+
+   if (  fp == nullptr
+      || !verif_in_blank)
+   {
+      return;
+   }
+   Chunk *prev = pc->GetPrevNc();
+   Chunk *next = pc->GetNext();
+
+   fprintf(fp, "BV i=%zu n=%zu t=%s pv=%s pvp=%s nx=%s nxp=%s head=%d tail=%d pp=%d\n",
+           verif_index[pc], pc->GetNlCount(), get_token_name(pc->GetType()),
+           prev->IsNullChunk() ? "-" : get_token_name(prev->GetType()),
+           prev->IsNullChunk() ? "-" : get_token_name(prev->GetParentType()),
+           next->IsNullChunk() ? "-" : get_token_name(next->GetType()),
+           next->IsNullChunk() ? "-" : get_token_name(next->GetParentType()),
+           (pc == Chunk::GetHead()) ? 1 : 0, next->IsNullChunk() ? 1 : 0,
+           pc->TestFlags(PCF_IN_PREPROC) ? 1 : 0);
+}
+
+
+void verif_nl_write(const Chunk *pc, size_t old_cnt, size_t new_cnt)
+{
+   if (!verif_in_blank)
+   {
+      return;
+   }
+   FILE *fp = verif_file();
+
+   if (fp != nullptr)
+   {
+      auto it = verif_index.find(pc);
+
+      fprintf(fp, "BW i=%zd old=%zu new=%zu t=%s\n",
+              (it == verif_index.end()) ? static_cast<ssize_t>(-1) : static_cast<ssize_t>(it->second),
+              old_cnt, new_cnt, get_token_name(pc->GetType()));
+   }
+}
+
+
+void verif_blank_end()
+{
+   FILE *fp = verif_file();
+
+   if (  fp != nullptr
+      && verif_in_blank)
+   {
+      fprintf(fp, "BLEND\n");
+   }
+   verif_in_blank = false;
+}
+
+
 verif_addchar_scope::verif_addchar_scope(unsigned int ch, bool is_literal)
 {
    if (  verif_depth == 0
